@@ -10,7 +10,10 @@
 (*   done(k, o)       call k finished with outcome o                       *)
 (*   servers(n)       the client's URL list was replaced (quiescent)       *)
 (*   quiesce(actives) no call is in flight; `actives` are the balancer's   *)
-(*                    in-flight counters (empty when it has none)          *)
+(*                    in-flight counters (empty when it has none);         *)
+(*                    invoked / picks: calls made / picks seen so far      *)
+(*   tight(calls, valid, invalid, panics) a concurrent burst of direct     *)
+(*                    calls of the balancer's handler, counted             *)
 (*                                                                         *)
 (* Judged (s.conc = FALSE, picks issued one after another, calls possibly  *)
 (* held in flight by the harness):                                         *)
@@ -97,8 +100,12 @@ LBStep(s, e) ==
             IF DOMAIN s.calls # {} \/ s.algo \notin {"rr", "random", "la"} THEN {}
             ELSE {[s EXCEPT !.n = e.n, !.w = [i \in 1..e.n |-> 1], !.ew = [i \in 1..e.n |-> 1],
                             !.served = Zeros(e.n), !.cyc = 0, !.infl = Zeros(e.n), !.cw = Zeros(e.n)]}
+      [] e.ev = "tight" ->      \* a concurrent burst, counted: every call one valid pick, no panic of the balancer
+            IF e.valid = e.calls /\ e.invalid = 0 /\ e.panics = 0 THEN {s} ELSE {}
       [] e.ev = "quiesce" ->
             IF DOMAIN s.calls # {} THEN {}
+            \* every call made so far went through the balancer to exactly one pick
+            ELSE IF "invoked" \in DOMAIN e /\ e.invoked # e.picks THEN {}
             ELSE IF \A i \in DOMAIN e.actives : e.actives[i] = 0 THEN {s} ELSE {}
       [] OTHER -> {}
 =============================================================================
